@@ -18,12 +18,12 @@ def manager(algo, n, k):
     if key not in _managers:
         if len(_managers) > 400:
             _managers.clear()
-        with common.captured():
+        with common.quiet():
             _managers[key] = eccman().ECCMan(n, k, algo=algo)
     m = _managers[key]
     if algo in (3, 4):
         # reedsolo keeps its tables in module globals: re-initialise for the field of this codec
-        with common.captured():
+        with common.quiet():
             if algo == 3:
                 eccman().reedsolo.init_tables(generator=m.gen_nb, prim=m.prim)
             else:
